@@ -212,8 +212,59 @@ func shapeNames(sel string) []string {
 	return out
 }
 
+// ---- deep tries ----------------------------------------------------------------------
+//
+// Keys nested six levels deep (every prefix is a key itself: two trie nodes per
+// byte) and a key of the maximal length: the in-memory trie of a node that
+// flushes after every block is collapsed to hash nodes below depth 10
+// (storeBlock: mpt.Collapse(10)), so the NEXT block's batch meets hash nodes
+// (putBatchIntoHash, nodes re-read from the store) exactly where these keys live.
+var (
+	deepKey  = []byte("dddddd")
+	maxKey   = bytes.Repeat([]byte{'m'}, 64) // storage.MaxStorageKeyLen
+	deepKeys = func() [][]byte {
+		var out [][]byte
+		for l := 1; l <= len(deepKey); l++ {
+			out = append(out, deepKey[:l])
+		}
+		return out
+	}()
+)
+
+func deepTemplates() []chainx.Tpl {
+	return []chainx.Tpl{
+		{Name: "ua-put-deep", Build: func(w *chainx.World) ([]*transaction.Transaction, error) {
+			var prog []any
+			for i, k := range deepKeys {
+				prog = append(prog, put(k, []byte{byte('0' + i)}))
+			}
+			prog = append(prog, put(maxKey, []byte("max")), put(maxKey[:63], []byte{}))
+			return one(w.URun(1, w.UA, prog))
+		}},
+		// the deepest key changes, a middle one goes away, a deeper one and a sibling appear
+		{Name: "ua-mod-deep", Build: func(w *chainx.World) ([]*transaction.Transaction, error) {
+			return one(w.URun(2, w.UA, []any{
+				put(deepKey, []byte("Z")), del(deepKey[:3]), put(append(append([]byte{}, deepKey...), 'd'), []byte("7")),
+				put(append(append([]byte{}, deepKey[:5]...), 'x'), []byte("s")), del(maxKey), put(maxKey[:63], []byte("e")),
+			}))
+		}},
+		// everything below "d" goes away bottom-up except the top key
+		{Name: "ua-del-deep", Build: func(w *chainx.World) ([]*transaction.Transaction, error) {
+			var prog []any
+			for i := len(deepKeys) - 1; i >= 1; i-- {
+				prog = append(prog, del(deepKeys[i]))
+			}
+			prog = append(prog, del(append(append([]byte{}, deepKey...), 'd')), del(maxKey[:63]), put([]byte("d"), []byte{}))
+			return one(w.URun(3, w.UA, prog))
+		}},
+	}
+}
+
+func deepNames() []string { return []string{"ua-put-deep", "ua-mod-deep", "ua-del-deep"} }
+
 func allTemplates() []chainx.Tpl {
 	out := append(ownTemplates(), designateTpl())
+	out = append(out, deepTemplates()...)
 	out = append(out, shapeTemplates()...)
 	out = append(out, chainx.TplByName("gas-transfer", "vote1", "neo-transfer", "exec-fee", "policy-storage-price", "unvote1", "empty", "block-account3")...)
 	return out
